@@ -33,6 +33,19 @@ func main() {
 		if r.Sim != nil {
 			r.Sim.Close()
 		}
+	case "paramrt":
+		fs := flag.NewFlagSet("paramrt", flag.ExitOnError)
+		seed := fs.Int64("seed", 1, "PRNG seed")
+		n := fs.Int("n", 200, "rounds")
+		fs.Parse(os.Args[2:])
+		lines, err := sim.ParamRoundTrip(*seed, *n)
+		if err != nil {
+			fmt.Fprintln(os.Stderr, "hubsim:", err)
+			os.Exit(2)
+		}
+		for _, l := range lines {
+			fmt.Println(l)
+		}
 	case "gen":
 		fs := flag.NewFlagSet("gen", flag.ExitOnError)
 		seed := fs.Int64("seed", 1, "PRNG seed")
